@@ -34,11 +34,11 @@ func newSrvWorld(r *Run, cfg srvCfg) *srvWorld {
 
 // C01: fault-free connection, unique ids, every member kind.
 func scenarioC01(r *Run) {
-	cfg := srvCfg{Prop: "C01", MaxMsgs: 6, MaxBatch: 4, Invalid: true, Unknown: true, RPCInfo: true, HoldP: 0.35, NoteP: 0.25, KMax: 4, Layout: true, Cancels: 2}
+	cfg := srvCfg{Prop: "C01", MaxMsgs: 6, MaxBatch: 4, Invalid: true, Unknown: true, RPCInfo: true, HoldP: 0.35, NoteP: 0.25, KMax: 4, Layout: true, Cancels: 2, DupIDs: true}
 	if r.Gen.Chance("withpush", 0.4) {
 		// server pushes interleaved with the client's calls, whose ids then count
 		// from 1 like the server's callback ids
-		cfg.Pushes, cfg.SeqIDs, cfg.AnswerAll = 3, true, true
+		cfg.Pushes, cfg.SeqIDs, cfg.AnswerAll, cfg.FoldReplies = 3, true, true, true
 	}
 	w := newSrvWorld(r, cfg)
 	w.start()
